@@ -82,9 +82,11 @@ class Detrender(_SeriesToSeriesTransformer):
         self : an instance of self
         """
         z = check_series(Z, enforce_univariate=True)
+        # the constructor argument is left as passed, the default is built here
         if self.forecaster is None:
-            self.forecaster = PolynomialTrendForecaster(degree=1)
-        forecaster = clone(self.forecaster)
+            forecaster = PolynomialTrendForecaster(degree=1)
+        else:
+            forecaster = clone(self.forecaster)
         self.forecaster_ = forecaster.fit(z, X)
         self._is_fitted = True
         return self
@@ -148,6 +150,7 @@ class Detrender(_SeriesToSeriesTransformer):
         -------
         self : an instance of self
         """
+        self.check_is_fitted()
         z = check_series(Z, enforce_univariate=True, allow_empty=True)
         self.forecaster_.update(z, X, update_params=update_params)
         return self
